@@ -422,6 +422,7 @@ impl Prop for C06 {
         let mut cfg = GenCfg::strict_full();
         cfg.fault_pct = 0;
         cfg.max_stanzas = 4;
+        cfg.ast_mutation_pct = 0;
         let prog = gen_program(rng, &cfg);
         let mut base = prog.file.clone();
         base.number();
